@@ -463,6 +463,14 @@ def hypothesis_shard(item: dict[str, Any]) -> Collector:
         elif inv == 15:  # noqa: PLR2004
             case["invalid"] = "sampler index beyond the configured samplers"
             config["gradient"]["samplers"] = [len(config.get("samplers", [0]))] * n
+        elif inv == 17 and n > 1:  # noqa: PLR2004
+            case["invalid"] = "lower bound above upper bound for a variable that the mask excludes"
+            fixed = draw(st.integers(0, n - 1))
+            config["variables"]["mask"] = [i != fixed for i in range(n)]
+            config["variables"]["lower_bounds"] = [9.0 if i == fixed else -9.0 for i in range(n)]
+            config["variables"]["upper_bounds"] = [1.0 if i == fixed else 9.5 for i in range(n)]
+            config["variables"]["initial_values"] = [0.5] * n
+            config["gradient"].pop("perturbation_types", None)
         elif inv == 16 and n > 1:  # noqa: PLR2004
             case["invalid"] = "enumeration values given as a matrix"
             field = draw(st.sampled_from(["boundary_types", "perturbation_types", "types"]))
